@@ -1,5 +1,6 @@
 import PsV.Proofs.Fit
 import PsV.Model.FitEntry
+import PsV.Model.Lifecycle
 /-! Helper lemmas for the width-aware model `fitBodyW` and the entry point `fitEntry` (C13). -/
 namespace PsV.Fit
 
@@ -291,7 +292,7 @@ def uniArgs (nd nk ord npts mono : Nat) : Args :=
    List.replicate nd (iotaKnots nk), [false], [0], mono⟩
 
 theorem getD_replicate {α} (n i : Nat) (x d : α) (h : i < n) : (List.replicate n x).getD i d = x := by
-  simp [List.getD_eq_getElem?_getD, List.getElem?_replicate, h]
+  simp [List.getD_eq_getElem?_getD, h]
 
 section uni
 variable {nd nk ord npts mono i : Nat}
@@ -362,5 +363,81 @@ theorem uni_ncoeffs (hk : ord + 1 ≤ nk) : ncoeffs (uniArgs nd nk ord npts mono
   have : (uniArgs nd nk ord npts mono).data.ndim = nd := rfl
   rw [this, map_range_const (c := nk - ord - 1) fun i hi => uni_nsplAt hi hk, prodL_replicate]
 end uni
+
+
+/-! ### bridge to C20's life-cycle model (`PsV.Lifecycle.fit`, Model/Lifecycle.lean) -/
+
+open PsV.Lifecycle in
+/-- without an allocation countdown a program of allocations runs to its end … -/
+theorem runSteps_allocs (l : List Nat) (live : List Nat) :
+    (runSteps none (l.map Step.a) live).2.2.2 = true := by
+  induction l generalizing live with
+  | nil => simp [runSteps]
+  | cons n rest ih => simpa [runSteps, dec] using ih (live ++ [n])
+
+open PsV.Lifecycle in
+/-- … and one that ends in a non-allocation failure does not -/
+theorem runSteps_allocs_fail (l : List Nat) (live : List Nat) :
+    (runSteps none (l.map Step.a ++ [Step.fail]) live).2.2.2 = false := by
+  induction l generalizing live with
+  | nil => simp [runSteps]
+  | cons n rest ih => simpa [runSteps, dec] using ih (live ++ [n])
+
+open PsV.Lifecycle in
+theorem build_ok_of_complete (guard : Bool) (t : Tab) (steps : List Step) (target : Tab) (n : Nat)
+    (h : (runSteps none steps []).2.2.2 = true) :
+    (build guard t none steps target n).res = .ok ∧ (build guard t none steps target n).tab.ndim = target.ndim := by
+  unfold build
+  simp only [h, if_true]
+  exact ⟨trivial, rfl⟩
+
+open PsV.Lifecycle in
+theorem build_guard_of_failed (t : Tab) (steps : List Step) (target : Tab) (n : Nat)
+    (h : (runSteps none steps []).2.2.2 = false) :
+    (build true t none steps target n).res = .threw ∧ (build true t none steps target n).tab.ndim = t.ndim := by
+  unfold build
+  simp only [h, Bool.false_eq_true, if_false, if_true]
+  exact ⟨trivial, rfl⟩
+
+open PsV.Lifecycle in
+/-- C20's `fit` at HEAD on an empty table with arguments its `valid` flag accepts is `build` under the guard -/
+theorem lifecycle_fit_empty_valid (t : Tab) (fa : FitArgs) (ht : t.ndim = 0) (hv : fa.valid = true) (hd : fa.dims ≠ []) :
+    PsV.Lifecycle.fit Cfg.head t none fa = build true t none (fitSteps fa) (fitTarget fa t) fa.dims.length := by
+  unfold PsV.Lifecycle.fit
+  simp [Cfg.head, ht, hv, hd]
+
+open PsV.Lifecycle in
+theorem lifecycle_fit_empty_invalid (t : Tab) (fa : FitArgs) (ht : t.ndim = 0) (hv : fa.valid = false) :
+    PsV.Lifecycle.fit Cfg.head t none fa = ⟨t, none, .threw, []⟩ := by
+  unfold PsV.Lifecycle.fit
+  simp [Cfg.head, ht, hv]
+
+open PsV.Lifecycle in
+theorem lifecycle_fit_occupied (t : Tab) (fa : FitArgs) (ht : t.ndim ≠ 0) :
+    PsV.Lifecycle.fit Cfg.head t none fa = ⟨t, none, .threw, []⟩ := by
+  unfold PsV.Lifecycle.fit
+  simp [Cfg.head, ht]
+
+open PsV.Lifecycle in
+theorem fitSteps_complete (fa : FitArgs) (h : fa.glamOk = true) : (runSteps none (fitSteps fa) []).2.2.2 = true := by
+  unfold fitSteps
+  rw [h]; simp only [if_true, List.append_nil]
+  exact runSteps_allocs _ _
+
+open PsV.Lifecycle in
+theorem fitSteps_failed (fa : FitArgs) (h : fa.glamOk = false) : (runSteps none (fitSteps fa) []).2.2.2 = false := by
+  unfold fitSteps
+  rw [h]; simp only [Bool.false_eq_true, if_false]
+  exact runSteps_allocs_fail _ _
+
+/-- What C20's model keeps of an argument tuple: whether the sanity block accepts it (`valid`), whether
+    `glamfit_complex` succeeds, and the dimensions of the table that is built. -/
+def toLifecycle (a : Args) (x : Ext) : PsV.Lifecycle.FitArgs :=
+  { valid := decide (fitChecks repaired a = .ok)
+    glamOk := decide (x ≠ .glamFailed)
+    dims := (List.range a.data.ndim).map fun i => ⟨a.ordAt i, a.nkAt i, a.nsplAt i⟩ }
+
+theorem toLifecycle_dims_length (a : Args) (x : Ext) : (toLifecycle a x).dims.length = a.data.ndim := by
+  simp [toLifecycle]
 
 end PsV.Fit
